@@ -246,6 +246,27 @@ pub fn run(st: &mut State, op: &str, cmd: &Value) -> Value {
             let _ = std::fs::remove_dir_all(&dir);
             res
         }
+        "names.patchfiles" => {
+            // files touched by ZiPatch::apply for one target-info chunk + one `A` command per (chunk, dat)
+            let base = crate::ops_patch::casedir(st, cmd, "pf");
+            let mut data = base.clone();
+            data.push("data");
+            std::fs::create_dir_all(&data).unwrap();
+            let mut pf = base.clone();
+            pf.push("p.patch");
+            std::fs::write(&pf, crate::ops_patch::unhex(cmd["_patch"].as_str().unwrap_or(""))).unwrap();
+            let (d, p) = (data.to_str().unwrap().to_string(), pf.to_str().unwrap().to_string());
+            let r = guarded(|| match physis::patch::ZiPatch::apply(&d, &p) {
+                Ok(()) => {
+                    let snap = crate::ops_patch::snapshot(&data);
+                    let files: Vec<Value> = snap["files"].as_array().unwrap().iter().map(|f| f["p"].clone()).collect();
+                    value(json!(files))
+                }
+                Err(e) => json!({"outcome": "error", "v": format!("{e:?}")}),
+            });
+            let _ = std::fs::remove_dir_all(&base);
+            r
+        }
         _ => toolerror(&format!("unknown op {op}")),
     }
 }
